@@ -25,8 +25,15 @@ TEMPLATES = {
     "pow_area": ["pow", "L", 2],
     "pow_vol": ["pow", "L", 3],
     "inv_area": ["div", ["num", 1.0], ["mul", "L", "L"]],
+    # the same dimensions with the factors in another order
+    "lt": ["mul", "L", "T"],
+    "tl": ["mul", "T", "L"],
+    "vel_b": ["mul", ["div", ["num", 1.0], "T"], "L"],
+    "lm_t_b": ["mul", "M", ["div", "L", "T"]],
 }
-QUICK = ["len", "time", "area", "vel", "freq", "area_cats", "len_mix", "mom", "pow_area", "vol"]
+# groups of templates with equal dimensions (operands of a + / - may come from different members)
+EQUAL_DIMS = [["lt", "tl"], ["vel", "vel_b"], ["area", "pow_area", "area_cats"], ["vol", "vol_r", "pow_vol"], ["len", "len_mix"], ["lm_t", "lm_t_b"]]
+QUICK = ["len", "time", "area", "vel", "freq", "area_cats", "len_mix", "mom", "pow_area", "vol", "lt", "tl", "vel_b"]
 THOROUGH = list(TEMPLATES)
 
 
